@@ -22,22 +22,28 @@ def table_dirs(mversion=33, local=None):
     return dirs
 
 
+def base_consts(dirs=None, mversion=33, local=None, **over):
+    c = {'Cases': '<<>>', 'Editions': '{4}', 'Compressions': '{FALSE}', 'SubsetCounts': '{1}', 'Fmax': '0', 'Seeds': '{0}',
+         'Slack': '0', 'ValueMode': '"classes"', 'Mode': '"produce"', 'ResetPolicy': '"fm94"',
+         'TableDirs': tlc.tla_val(list(dirs or table_dirs(mversion, local))),
+         'MasterVersion': str(mversion), 'LocalVersion': str(local[2] if local else 0),
+         'Centre': str(local[0] if local else 0), 'SubCentre': str(local[1] if local else 0)}
+    c.update(over)
+    return c
+
+
 def tla_set(xs):
     return '{' + ', '.join(tlc.tla_val(x) for x in xs) + '}'
 
 
 def gen_run(wd, name, templates, editions=(4,), compressions=(False, True), subset_counts=(1, 2),
-            fmax=2, seeds=(0,), slack=0, mversion=33, local=None, reset='fm94', invariants=None,
+            fmax=2, seeds=(0,), slack=0, mversion=33, local=None, reset='fm94', invariants=None, value_mode='classes',
             workers=16, timeout=3000, coverage=False):
-    consts = {
-        'Cases': '<<' + ', '.join('[ids |-> %s]' % tlc.tla_val(list(t)) for t in templates) + '>>',
-        'Editions': tla_set(editions), 'Compressions': tla_set(compressions),
-        'SubsetCounts': tla_set(subset_counts), 'Fmax': str(fmax), 'Seeds': tla_set(seeds),
-        'Slack': str(slack), 'Mode': '"produce"', 'ResetPolicy': tlc.tla_str(reset),
-        'TableDirs': tlc.tla_val(table_dirs(mversion, local)),
-        'MasterVersion': str(mversion), 'LocalVersion': str(local[2] if local else 0),
-        'Centre': str(local[0] if local else 0), 'SubCentre': str(local[1] if local else 0),
-    }
+    consts = base_consts(
+        Cases='<<' + ', '.join('[ids |-> %s]' % tlc.tla_val(list(t)) for t in templates) + '>>',
+        Editions=tla_set(editions), Compressions=tla_set(compressions), SubsetCounts=tla_set(subset_counts),
+        Fmax=str(fmax), Seeds=tla_set(seeds), Slack=str(slack), Mode='"produce"', ResetPolicy=tlc.tla_str(reset),
+        ValueMode=tlc.tla_str(value_mode), dirs=table_dirs(mversion, local), mversion=mversion, local=local)
     text = tlc.mc_module(name, ['FM94Gen'], consts)
     invs = list(invariants if invariants is not None else
                 ['TypeOK', 'MissingIffAllOnes', 'LinksPointBack', 'CursorIsSumOfWidths',
@@ -211,16 +217,10 @@ def replay_encode(beh, encoder=None, canonical=True):
 # ---------------------------------------------------------------------------------------------
 # consume form: the specification itself parses octets produced by the real encoder
 
-def consume_run(wd, name, messages, mversion=33, local=None, workers=16, timeout=3000):
+def consume_run(wd, name, messages, mversion=33, local=None, workers=16, timeout=3000, dirs=None):
     """messages: list of bytes.  Returns {tid (1-based): behaviour}."""
-    consts = {
-        'Cases': '<<' + ', '.join('[msg |-> %s]' % tlc.tla_val(list(m)) for m in messages) + '>>',
-        'Editions': '{4}', 'Compressions': '{FALSE}', 'SubsetCounts': '{1}', 'Fmax': '0', 'Seeds': '{0}',
-        'Slack': '0', 'Mode': '"consume"', 'ResetPolicy': '"fm94"',
-        'TableDirs': tlc.tla_val(table_dirs(mversion, local)),
-        'MasterVersion': str(mversion), 'LocalVersion': str(local[2] if local else 0),
-        'Centre': str(local[0] if local else 0), 'SubCentre': str(local[1] if local else 0),
-    }
+    consts = base_consts(Cases='<<' + ', '.join('[msg |-> %s]' % tlc.tla_val(list(m)) for m in messages) + '>>',
+                         Mode='"consume"', dirs=dirs or table_dirs(mversion, local), mversion=mversion, local=local)
     text = tlc.mc_module(name, ['FM94Gen'], consts)
     cfg = tlc.mc_cfg(consts, invariants=['TypeOK', 'MissingIffAllOnes', 'LinksPointBack', 'Emit'])
     res = tlc.run(wd, name, cfg, text, workers=workers, lazy_emitted=True, coverage=False, timeout=timeout)
@@ -298,7 +298,7 @@ def _work(args):
     mode, behs = args
     out = []
     for beh in behs:
-        r = {'bad_dec': None, 'bad_enc': None, 'enc_bytes': None}
+        r = {'bad_dec': None, 'bad_enc': None, 'enc_bytes': None, 'bad_tr': None}
         if 'decode' in mode:
             r['bad_dec'], _ = replay_decode(beh)
         if 'encode' in mode:
@@ -306,8 +306,36 @@ def _work(args):
             r['bad_enc'] = bad
             if bad is None and beh['cmp']:
                 r['enc_bytes'] = bytes(msg.serialized_bytes)
+        if 'transparent' in mode and beh['cmp'] and r['bad_dec'] is None:
+            r['bad_tr'] = replay_transparent(beh)
         out.append(r)
     return out
+
+
+def replay_transparent(beh):
+    """The same subsets stored uncompressed: the real encoder writes them, the real decoder reads them,
+    and values, labels and links must equal what the compressed form decodes to (both through pybufrkit;
+    the compressed side is tied to the specification by replay_decode)."""
+    from pybufrkit.decoder import Decoder
+    from pybufrkit.encoder import Encoder
+    vals = flat_values(beh)
+    try:
+        ju = pyb.flat_json(beh['ed'], beh['ids'], beh['nsub'], False, vals, ident=ident_of(beh))
+        mu = Decoder().process(Encoder().process(ju).serialized_bytes)
+        mc = Decoder().process(bytes(beh['msg']))
+    except Exception as e:
+        return (('transparent', 'exception', type(e).__name__, ''), 'uncompressed encode/decode of the same subsets raised %r' % (e,))
+    for i in range(beh['nsub']):
+        if pyb.labels_of(mu, i) != pyb.labels_of(mc, i):
+            return (('transparent', 'labels', 'differ', ''), 'subset %d: labels differ between the compressed and the uncompressed form' % i)
+        a, b = pyb.values_of(mu, i), pyb.values_of(mc, i)
+        if len(a) != len(b) or any(type(x) != type(y) or x != y for x, y in zip(a, b)):
+            k = next((k for k in range(min(len(a), len(b))) if type(a[k]) != type(b[k]) or a[k] != b[k]), -1)
+            return (('transparent', 'values', 'differ', ''),
+                    'subset %d index %d: uncompressed %r, compressed %r' % (i, k, a[k] if k >= 0 else len(a), b[k] if k >= 0 else len(b)))
+        if pyb.links_of(mu, i) != pyb.links_of(mc, i):
+            return (('transparent', 'links', 'differ', ''), 'subset %d: links differ between the two forms' % i)
+    return None
 
 
 def replay_all(behaviours, mode, procs=14, chunk=40):
